@@ -233,10 +233,22 @@ class History:
                 return
             diff = compare_models(m1, fresh["model"])
             if diff:
+                # F4 (C07): with >= 4 final states and several registered topologies (permuted, symmetrised), one angle name is
+                # defined by several topologies with different values, and which definition wins depends
+                # on the iteration order of the adapter's set of topologies
+                only_colliding_angles = False
+                if set(diff) == {"kinematic_variables"} and diff["kinematic_variables"] == "content":
+                    ka, kb = dict(m1.kinematic_variables), dict(fresh["model"].kinematic_variables)
+                    differing = [k for k in ka if k not in kb or ka[k] != kb[k]] + [k for k in kb if k not in ka]
+                    only_colliding_angles = bool(
+                        st_["rdesc"]["n"] >= 4 and differing
+                        and all(k.name.startswith(("phi_", "theta_")) for k in differing)
+                    )
                 self.result = violation(
                     "differs_from_fresh_process", nontrivial, sorted(self.labels), hashseed=hs, builder=b,
                     differing=diff, order_only=all(v == "order" for v in diff.values()),
                     preceded_by_other_configurations=len(set(others)),
+                    only_colliding_angle_values_of_permuted_adapter=only_colliding_angles,
                 )
                 return
 
